@@ -14,7 +14,8 @@
       nothing written outside the rows
    b. API: enc/dec cases through tj3Compress*/tj3Decompress* and jpeg_write/read_scanlines
       (8/12/16-bit): byte-identical JPEGs across formats x pitches x row orders; identical
-      channels after decompression; TJPF_GRAY == raw-data component 0.
+      channels after decompression; TJPF_GRAY / JCS_GRAYSCALE == raw-data component 0 (YCbCr, gray JPEGs)
+      and == the fixed-point luminance of the same JPEG decoded to RGB (RGB-colourspace JPEGs).
 """
 import json
 import os
@@ -95,15 +96,15 @@ def gen_kernel_group(rng, op, bits):
             g["lines"].append("k %s %d %d %d %d %d %d | %s | %s" % (
                 op, bits, cs, w, h, pitch, bu, " | ".join(" ".join(map(str, p)) for p in planes), " ".join(map(str, buf))))
             g["meta"].append({"cs": cs, "pitch": pitch, "bu": bu, "init": buf})
-    else:   # y2g : no layouts, pitch and row order only
+    else:   # y2g / r2g : no layouts, pitch and row order only
         planes = [[sample(rng, mx, style) for _ in range(w * h)] for _ in range(3)]
         g["planes"] = planes
         for pad in PADS:
             for bu in (0, 1):
                 pitch = w + pad
                 buf = junk(rng, h * pitch, bits)
-                g["lines"].append("k y2g %d 1 %d %d %d %d | %s | %s" % (
-                    bits, w, h, pitch, bu, " | ".join(" ".join(map(str, p)) for p in planes), " ".join(map(str, buf))))
+                g["lines"].append("k %s %d 1 %d %d %d %d | %s | %s" % (
+                    op, bits, w, h, pitch, bu, " | ".join(" ".join(map(str, p)) for p in planes), " ".join(map(str, buf))))
                 g["meta"].append({"cs": 1, "pitch": pitch, "bu": bu, "init": buf})
     return g
 
@@ -122,6 +123,8 @@ def gen_api(rng, mode, thorough):
     cspace = -1
     if not lossless and rng.chance(3, 10):
         cspace = rng.choice([0, 1, 2])
+    if not lossless and mode == "dec" and rng.chance(1, 8):
+        cspace = 0      # JPEG stored in the RGB colourspace: gray output goes through rgb_gray_convert
     flags = 0
     if rng.chance(1, 4):
         flags |= 1
@@ -173,7 +176,7 @@ def judge_kernel(g, outs):
         if len(buf) != len(init):
             return ("output buffer length", "kernel-error:" + op)
         cs, pitch, bu = m["cs"], m["pitch"], m["bu"]
-        if op == "y2g":
+        if op in ("y2g", "r2g"):
             r, gg, b, a, ps = 0, 0, 0, -1, 1
         else:
             r, gg, b, a, ps = DOC[cs]
@@ -195,6 +198,13 @@ def judge_kernel(g, outs):
         if op == "y2g":
             if [p[0] for p in px] != g["planes"][0]:
                 return ("y2g: gray output is not component 0 (pitch %d bottomup %d)" % (pitch, bu), "gray-not-luma:kernel")
+        elif op == "r2g":   # JCS_RGB JPEG -> gray: the documented fixed-point luminance of the R,G,B planes
+            exp = [(19595 * rr + 38470 * g2 + 7471 * bb + 32768) >> 16 for rr, g2, bb in zip(*g["planes"])]
+            got = [p[0] for p in px]
+            if got != exp:
+                k = [i for i in range(len(exp)) if got[i] != exp[i]][0]
+                return ("r2g: gray output of an RGB-colourspace JPEG is not the luminance: R=%d G=%d B=%d -> %d, expected %d (%d-bit)"
+                        % (g["planes"][0][k], g["planes"][1][k], g["planes"][2][k], got[k], exp[k], bits), "gray-not-luma:rgb-kernel")
         elif op == "r2c":
             if px != list(zip(*g["planes"])):
                 return ("r2c: JCS_%s output is not the RGB planes" % CSNAME[cs], "decompress-layout:r2c:" + CSNAME[cs])
@@ -205,7 +215,7 @@ def judge_kernel(g, outs):
             ref = px
         elif px != ref:
             return ("%s: decoded r,g,b differ between JCS_%s and JCS_%s for the same planes (pitch %d, bottomup %d)"
-                    % (op, CSNAME[g["meta"][0]["cs"]], CSNAME.get(cs, "GRAY"), pitch, bu), "decompress-layout:%s:%s" % (op, CSNAME.get(cs, "GRAY")))
+                    % (op, CSNAME.get(g["meta"][0]["cs"], "GRAY"), CSNAME.get(cs, "GRAY"), pitch, bu), "decompress-layout:%s:%s" % (op, CSNAME.get(cs, "GRAY")))
     return None
 
 
@@ -234,6 +244,9 @@ def judge_api(g, out):
                     return ("decompress: %s samples outside the w*ps extent of the rows were modified (%s)" % (tc, name), "overwrite:api:" + fmt)
             if val != ref[1]:
                 what = "JPEG bytes" if mode == "enc" else ("gray/luminance samples" if grp == "gray" else "decoded channels")
+                if grp == "gray" and "lumaOfRGB" in (ref[0], name):
+                    return ("dec: RGB-colourspace JPEG decoded to gray is not the luminance of the same JPEG decoded to RGB (%s vs %s)"
+                            % (ref[0], name), "gray-not-luma:rgb-jpeg")
                 return ("%s: %s differ between %s and %s (group %s)" % (mode, what, ref[0], name, grp), "%s-mismatch:%s:%s" % (mode, grp, fmt))
     return None
 
@@ -258,7 +271,7 @@ def run(ctx):
         for fn in sorted(os.listdir(cdir)):
             if fn.endswith(".json"):
                 groups.append(json.load(open(os.path.join(cdir, fn))))
-    ops8 = ["c2y", "c2g", "c2r", "y2c", "g2c", "r2c", "y2g", "m1", "m2"]
+    ops8 = ["c2y", "c2g", "c2r", "y2c", "g2c", "r2c", "y2g", "r2g", "m1", "m2"]
     nk = ctx.n(900, 7000)
     for i in range(nk):
         op = ops8[i % len(ops8)] if i < 3 * len(ops8) else rng.choice(ops8)
@@ -349,7 +362,7 @@ def run_groups(ctx, groups, exes, drv, flavours):
     ctx.cov["model_impl_disagreements"] = disagree
     ctx.cov["rule"] = ("kernel groups: one picture / one set of planes presented to all 11 RGB-family colour spaces with random filler, "
                        "pitch w*ps+{0,1,5,32}, both row orders, 8/12/16-bit, widths around the SIMD vector sizes, through the real "
-                       "(SIMD and C) rgb->ycc, rgb->gray, rgb->rgb, ycc->rgb, gray->rgb, rgb->ext, ycc->gray and merged h2v1/h2v2 routines; "
+                       "(SIMD and C) rgb->ycc, rgb->gray, rgb->rgb, ycc->rgb, gray->rgb, rgb->ext, ycc->gray, rgb->gray (decompressor) and merged h2v1/h2v2 routines; "
                        "API cases: each picture through 10 TJ pixel formats (+GRAY, CMYK) x 4 paddings x 2 row orders and 11 JCS_* x 2 row-pointer "
                        "arrangements, lossy and lossless, all subsamplings; a case is distinct when its first output line is distinct; "
                        "evaluations counts compress/decompress calls and kernel lines")
